@@ -169,6 +169,11 @@ class SArr:
                 else:
                     coords.append(("lin", base + stride * p[1], stride * p[2], p[3]))
             return ("aff", st[1], coords)
+        if st[0] == "lin":
+            try:
+                return ("lin", [(c, p[tuple(index)]) for c, p in st[1]])
+            except core.Unsupported:
+                return None
         if st[0] == "cat":
             axis, parts = st[1], st[2]
             if any(i is None for i in index):
@@ -282,6 +287,8 @@ class SArr:
         st = self.struct
         if st is None:
             raise core.Unsupported("scan over an array that is neither a view of a source nor a concatenation of views")
+        if st[0] == "lin":
+            return _lin_apply(st[1], lambda p: p.accumulate(axis, op))
         if st[0] == "cat":
             cax, parts = st[1], st[2]
             if cax != axis:
@@ -350,6 +357,8 @@ class SArr:
                     del shape[axis]
                 return self._derive(shape, at)
             raise core.Unsupported("reduction over an array that is neither a view of a source nor a concatenation of views")
+        if st[0] == "lin":
+            return _lin_apply(st[1], lambda p: p.reduce_axis(axis, op, keepdims))
         if st[0] == "cat":
             cax, parts = st[1], st[2]
             if cax != axis:
@@ -409,7 +418,13 @@ class SArr:
                         log.add("operands are broadcast-compatible",
                                 core._wrapb(z3.Or(_z(da) == _z(db), _z(da) == 1, _z(db) == 1)))
             A, B = a.broadcast_to(shape), b.broadcast_to(shape)
-            return self._derive(shape, lambda idx: op(A._at(idx), B._at(idx)))
+            out = self._derive(shape, lambda idx: op(A._at(idx), B._at(idx)))
+            # linear combinations of structured arrays of identical shape stay reducible (sum(a+b) = sum(a)+sum(b))
+            sign = getattr(op, "_lin_sign", None)
+            if sign is not None and a.struct is not None and b.struct is not None and a.ndim == b.ndim and \
+                    all(_same_dim(x, y) for x, y in zip(a.shape, b.shape)):
+                out.struct = ("lin", [(1, a), (sign, b)])
+            return out
         c = core.SymReal._r(other)
         src = self
         if rev:
@@ -417,16 +432,16 @@ class SArr:
         return self._derive(self.shape, lambda idx: op(src._at(idx), c))
 
     def __add__(self, o):
-        return self._elemwise(o, lambda x, y: x + y)
+        return self._elemwise(o, _ADD)
 
     def __radd__(self, o):
-        return self._elemwise(o, lambda x, y: x + y, rev=True)
+        return self._elemwise(o, _ADD, rev=True)
 
     def __sub__(self, o):
-        return self._elemwise(o, lambda x, y: x - y)
+        return self._elemwise(o, _SUB)
 
     def __rsub__(self, o):
-        return self._elemwise(o, lambda x, y: x - y, rev=True)
+        return self._elemwise(o, _SUB, rev=True)
 
     def __mul__(self, o):
         return self._elemwise(o, lambda x, y: _UF("mul", x, y))
@@ -436,7 +451,10 @@ class SArr:
 
     def __neg__(self):
         src = self
-        return self._derive(self.shape, lambda idx: -src._at(idx))
+        out = self._derive(self.shape, lambda idx: -src._at(idx))
+        if self.struct is not None:
+            out.struct = ("lin", [(-1, self)])
+        return out
 
     def __invert__(self):
         st = self.struct
@@ -535,6 +553,35 @@ class SArr:
 
     def __repr__(self):
         return f"SArr(shape={self.shape})"
+
+
+def _ADD(x, y):
+    return x + y
+
+
+def _SUB(x, y):
+    return x - y
+
+
+_ADD._lin_sign = 1
+_SUB._lin_sign = -1
+
+
+def _same_dim(x, y):
+    if isinstance(x, int) and isinstance(y, int):
+        return x == y
+    if isinstance(x, int) or isinstance(y, int):
+        return False
+    return z3.eq(z3.simplify(_z(x)), z3.simplify(_z(y)))
+
+
+def _lin_apply(parts, f):
+    out = None
+    for coef, p in parts:
+        t = f(p)
+        t = t if coef == 1 else -t
+        out = t if out is None else out + t
+    return out
 
 
 _uf_cache = {}
